@@ -237,6 +237,9 @@ func enumerate(tier string) []caseSpec {
 			cross([][]string{a, b}, "snake", "a.b.c", mainTypes[1], "both", nil, "")
 		}
 	}
+	// the sequence of file kinds in file_to_generate, and the proto paths M options refer to
+	enumerateFiles(tier, add)
+	enumeratePaths(tier, add)
 	if tier != "thorough" {
 		return cases
 	}
@@ -595,6 +598,7 @@ func main() {
 	crossSeen := map[string][]int{}
 	crossBases := map[string]bool{}
 	crossCases, subsumed := 0, 0
+	fileSeqs, pathPairs := map[string]bool{}, map[string]bool{}
 
 	// the plugin runs in parallel; the oracle consumes the outcomes in enumeration order
 	const chunk = 1024
@@ -632,8 +636,16 @@ func main() {
 			totals.StreamIndexes += st.StreamIndexes
 			totals.TypeChecked += st.TypeChecked
 			totals.DescRefs += st.DescRefs
-			if st.Registrations > 0 || st.Methods > 0 || (o.c.Kind == "invalid-opt" && st.Observed != "") {
+			totals.OutputNames += st.OutputNames
+			totals.FileSets += st.FileSets
+			if st.Registrations > 0 || st.Methods > 0 || (o.c.Kind == "invalid-opt" && st.Observed != "") || (o.c.Kind == "files" && st.FileSets > 0) {
 				distinct[o.c.key()] = true
+			}
+			if o.c.Kind == "files" {
+				fileSeqs[strings.Join(o.c.FileKinds, ",")] = true
+			}
+			if o.c.MainPath != "" || o.c.DepPath != "" {
+				pathPairs[o.c.mainPath()+" <- "+o.c.depPath()] = true
 			}
 			if n := lo + i; n%(len(cases)/6+1) == 7 && len(samples) < 8 {
 				samples = append(samples, map[string]interface{}{"case": o.c, "observed": st.Observed})
@@ -692,7 +704,10 @@ func main() {
 	code = rep.Finish("exploration", map[string]interface{}{
 		"evaluations":         evals,
 		"distinct_nontrivial": len(distinct),
-		"rule": "a case (= one CodeGeneratorRequest: services x method-kind sequences x naming x proto package x request/response type source x dep placement x option string) is non-trivial when the plugin emitted a file in which at least one RegisterHandler function or legacy client method was located and compared with the model (or, for an invalid option string, when the plugin answered at all); distinct by the full case key. " +
+		"rule": "a case (= one CodeGeneratorRequest: services x method-kind sequences x naming x proto package x request/response type source x dep placement x proto paths of the generated and the imported file x option string; or a sequence of file kinds x Go package layout x option string) is non-trivial when the plugin emitted a file in which at least one RegisterHandler function or legacy client method was located and compared with the model (or, for an invalid option string, when the plugin answered at all; or, for a file-kind sequence, when the set of emitted files was compared with the set of files that declare a service, which for a sequence of message-only files is the comparison with the empty set); distinct by the full case key. " +
+			"Every valid request is also judged on the set and the location of its output: exactly one file per file_to_generate that declares a service, at the name protoc-gen-go/-go-grpc give the same file under the same options (paths, module, M, import_path, go_package), none for a file without services, no error. " +
+			"File-kind dimension (both tiers): all 85 sequences of length 1..3 in file_to_generate over {S: service over own messages, M: messages only, I<t>: service over the messages of file t}, t ranging over every S or M file of the sequence and a file of the request that is not generated (39 kind orders x choices of t), x {one Go package for all files, one per file} x 8-9 option strings that decide packages and output names (none, legacy_stubs, import_path, module, paths=source_relative, M for the first / the last / all files to one package / all files to distinct packages); thorough x {camel, snake}. " +
+			"Proto path dimension: a 15-path alphabet + the default path, for the generated file and for the file its types are imported from (no directory, lower-case m, capital M / MM as directory, as file name and as prefix of another path of the alphabet, nested directories, '-' '.' '_' and digits, .protodevel, option names as path elements); quick: every path for either file with the other at its default x 12 option strings (M for the generated file with and without package name, for the imported file, for both, both to one package, with import_path, with paths=source_relative, with module; legacy_stubs on and off) x 5 file relations (imported file not generated; generated too, both orders of file_to_generate; same Go package; part of the request but unused) x 3 service shapes ({U,SS}, {BD}, no methods), + every ordered pair of distinct paths x {M for the generated, the imported, both files}; thorough: every ordered pair x everything (requests in which two generated files would get one output name are not members). " +
 			"The option set is a fully crossed dimension: all 2^7 = 128 subsets of the options parseArgs understands {legacy_stubs, legacy_desc_names, paths, module, import_path, M..., debug} (one representative value per valued option; paths=source_relative, or paths=import when module is in the set, the rejected pair paths=source_relative+module being enumerated as 32 invalid strings), each with a companion (the protoc-gen-go/-go-grpc declarations the output is type-checked against) synthesised for that option set, i.e. declaring _<Svc>_serviceDesc exactly when legacy_desc_names is on. In a crossed group a finding is reported under the minimal option sets that show it (dropped when the same clause/detail was observed for the same descriptor under a proper subset; count in subsumed_findings). " +
 			"quick: the 128+32 option strings x (every kind sequence of length 0..2 as a single service, camel, package p, local types, M mapping the file) and x (every ordered pair of sequences <= 1 as a two-service file, snake, package a.b.c, imported types, M mapping both files); " +
 			"every kind sequence of length 0..3 as a single service x {camel,snake} x {p,a.b.c,no package} x {local, imported, Empty} with legacy_stubs (+ no options for local), two-service files for every ordered pair of sequences <= 2 and every (<=3, <=1)/(<=1, <=3) pair, requests generating two files (dependency in another/the same Go package) x both orders of file_to_generate x 9 package/output-name options (import_path, module, paths, M...) with an order-invariance comparison of output names, package clauses and import sets, + regeneration. " +
@@ -711,9 +726,17 @@ func main() {
 		"client_methods_compared":           totals.Methods,
 		"stream_indexes_compared":           totals.StreamIndexes,
 		"emitted_files_typechecked":         totals.TypeChecked,
+		"output_names_compared":             totals.OutputNames,
+		"file_sets_compared":                totals.FileSets,
+		"file_kind_sequences":               len(fileSeqs),
+		"proto_path_alphabet":               protoPaths,
+		"proto_path_pairs":                  len(pathPairs),
 		"samples":                           samples,
 		"exhaustive":                        exhaustive,
 	}, []string{
+		"the proto path and file-kind dimensions are swept around one base descriptor each (package p, camel names, service shapes named in the rule) and the option strings that decide Go packages and output names, not crossed with the 128 option subsets or with the method-kind sequences",
+		"a path named by an M option cannot contain ',' or '=' (protoc splits the parameter at ',', the option syntax at the first '='); such paths are outside the alphabet",
+		"output location: no reference exists, and none is demanded, when module= is given and the Go package of a file lies outside that module (protoc-gen-go rejects the request)",
 		"valued options are enumerated with one representative value each inside the crossed dimension (other values and M placements: the 18 named option strings); the textual order of the options in the parameter string is the canonical one",
 		"protoc itself is not run: requests are built with descriptorpb and validated by the plugin's own descriptor loader",
 		"the companion file models protoc-gen-go-grpc v1.1 (non-generic stream wrappers), the version the repository's Makefile pins",
